@@ -123,11 +123,14 @@ def r2_policy_table(R, sh: SolverShape) -> None:
     conv, _ = sh.convergence_node()
     # the policy applies at the first pass that leaves non-finite values behind, whatever min_iter: no fact about min_iter
     # stands between the evaluation and the non-finite test
+    from fsa.match import entails
     for nfn in nf_cur:
-        gated = [(a_, tr_, tn_) for (a_, tr_, tn_) in guard_atoms(sh, nfn.id) if sh.in_loop(tn_) and any(isinstance(x, ast.Name) and x.id == 'min_iter' for x in ast.walk(a_))]
+        facts_ = [(a_, tr_, tn_) for (a_, tr_, tn_) in guard_atoms(sh, nfn.id) if sh.in_loop(tn_)]
+        gated = entails(facts_, expr(f'{sh.counter} < min_iter'), False)
+        shown_ = [text(a_)[:40] for (a_, tr_, tn_) in facts_ if any(isinstance(x, ast.Name) and x.id == 'min_iter' for x in ast.walk(a_))]
         R.check(not gated, sh.q, 'policy-not-gated-by-min-iter', 'the error policy is reached on every pass, forced (below min_iter) or not',
-                f'`{text(nfn.ast)[:50]}` is reached only when `{text(gated[0][0])[:40]}` is {gated[0][1]}: a pass below min_iter that produces non-finite values '
-                f'bypasses the errors= policy (no raise / skip / replace)' if gated else '', where=sh.where(nfn))
+                f'`{text(nfn.ast)[:50]}` is reached only when the pass is not below min_iter ({shown_}): a pass below min_iter that produces non-finite values '
+                f'bypasses the errors= policy (no raise / skip / replace)', where=sh.where(nfn))
     # The policy table is decided path-sensitively: the exploration is split by the value of `errors`
     # (raise / skip / ignore / replace / anything else), so it does not matter whether the rows are an if/elif ladder,
     # guard clauses, or share code.  For each value: the part of the product graph entered through the true edge of
